@@ -343,6 +343,11 @@ class ListSpec(hist.Spec):
                           '%s: %r after %r raises %s: %s; the list model accepts it' % (self.sid, op, list(ctx.hist), exc_class(ctx.exc), ctx.exc),
                           point, rank)
             return
+        if ctx.expect == 'raise' and ctx.outcome == 'ok' and self.agrees(ctx.after, ctx.model_before):
+            # accepted where the list model has nothing to edit, and nothing changed: the encodings still agree, which is
+            # all the statement asks (seen when a read left a temporary traversal child behind: del then finds that one)
+            res.classes['accepted-without-effect:%s' % op[0]] += 1
+            return
         if ctx.expect == 'raise' and ctx.outcome == 'ok':
             res.violation(base + '|unexpected-accept', '%s: %r after %r is accepted; the list model rejects it (absent child / index)'
                           % (self.sid, op, list(ctx.hist)), point, rank)
